@@ -570,6 +570,9 @@ class PmMutator(Mutator):
         """
         rnd = random.uniform(0, 1)
         dx = ub - lb
+        if dx == 0.0:
+            # fixed parameter (lb == ub): nothing to mutate, avoid the division by zero
+            return self.clip(x, lb, ub)
         delta1 = (x - lb) / dx
         delta2 = (ub - x) / dx
         mut_pow = 1.0 / (self.distribution_index + 1.0)
